@@ -31,7 +31,7 @@ MANDATORY = ["point:between", "point:below", "point:above", "point:on-node", "ax
 
 
 def budget(tier):
-    return {"quick": dict(examples=1200, shards=1), "thorough": dict(examples=15000, shards=16)}[tier]
+    return {"quick": dict(examples=2500, shards=1), "thorough": dict(examples=15000, shards=16)}[tier]
 
 
 @st.composite
